@@ -1,7 +1,7 @@
 """C12 Verify accepts exactly what decrypt accepts; writes nothing; inputs stay intact."""
 from .common import combined
 LEVEL = 'other'
-RULES = ('R12.a', 'R12.b', 'R12.c', 'R12.d', 'R12.e', 'R12.f', 'R02.f')
+RULES = ('R12.a', 'R12.b', 'R12.c', 'R12.d', 'R12.e', 'R12.f', 'R02.f', 'R04.g')
 
 
 def run(prog, rec, tier):
@@ -9,7 +9,7 @@ def run(prog, rec, tier):
     C = cli_rules.CliRules(prog, rec)
     C.parser()
     C.input_mode()
-    combined(prog, rec, tier, RULES, driver=('reader',),
+    combined(prog, rec, tier, RULES, driver=('reader',), pipe=True,
              explanation='Sibling agreement: on every abstract path of execute_verify and execute_decrypt the result is exactly '
              '(shared verification step returned 0); both reach that step with the same stream reads and get the same outcome set; '
              'a missing input is handled alike; the verify operation has no output effect; no operation writes through the input stream; the input is opened read-only and the default output name is the input '
